@@ -297,8 +297,72 @@ class Lemmas:
 
 # ----------------------------------------------------------------------------- guards
 
-def _arity_guard(fn, lem, container, k, site_block):
-    """site dominated by Continue edge of expect_operator_argument_amount(len(container), n)? with n > k"""
+_WRAPPERS = {}
+
+
+def arity_wrappers(prog):
+    """local helper functions that establish an argument count: {fn path: (parameter index, n)} when every path of the helper that
+    can return Ok has passed the Ok side of expect_operator_argument_amount(len(parameter), n)"""
+    key = id(prog)
+    if key in _WRAPPERS:
+        return _WRAPPERS[key]
+    out = {}
+    target = 'error::expect_operator_argument_amount'
+    for h in prog.fns:
+        if h.kind == 'Closure' or short(h.path) == target or not any(True for _ in h.calls_to(target)):
+            continue
+        nparams = h.j.get('arg_count') or 0
+        if not nparams:
+            continue
+        try:
+            it = Interp(prog, max_depth=1, opaque=lambda g: True, max_steps=20000)
+            ps = it.paths(h, [SYM('p%d' % i) for i in range(nparams)])
+        except Budget:
+            continue
+        found = None
+        good = True
+        for ret, eff in ps:
+            if ret == ('diverge',):
+                continue
+            if is_adt(ret, 'result::Result', 'Err'):
+                continue
+            passed = None
+            for e in eff:
+                if e[0] != '<branch>':
+                    continue
+                v, taken = e[2]
+                if v[0] == 'app' and v[1] == 'discriminant' and taken == C(0):
+                    g = v[2][0]
+                    if g[0] == 'app' and short(g[1]).endswith('expect_operator_argument_amount') and len(g[2]) == 2 and g[2][1][0] == 'c':
+                        ln = g[2][0]
+                        if ln[0] == 'app' and ln[1].split('::')[-1] == 'len' and len(ln[2]) == 1 and ln[2][0][0] == 'sym':
+                            passed = (int(ln[2][0][1][1:]), g[2][1][1])
+            if passed is None or (found is not None and found != passed):
+                good = False
+                break
+            found = passed
+        if good and found is not None:
+            out[short(h.path)] = found
+    _WRAPPERS[key] = out
+    return out
+
+
+def _arity_guard(fn, lem, container, k, site_block, prog=None):
+    """site dominated by Continue edge of expect_operator_argument_amount(len(container), n)? with n > k, directly or through a
+    local helper that establishes the same fact about the slice passed to it"""
+    if prog is not None and lem.get('arity'):
+        for hp, (pi, n) in arity_wrappers(prog).items():
+            if not isinstance(n, int) or n <= k:
+                continue
+            for b, t in fn.calls_to(hp):
+                if pi >= len(t['args']):
+                    continue
+                a = arg_place(fn, t, pi)
+                if a is None or place_key(strip_trailing_deref(a)) != place_key(strip_trailing_deref(container)):
+                    continue
+                qm = question_mark(fn, b)
+                if qm is not None and fn.edge_dominates((qm['switch'], qm['cont']), site_block):
+                    return 'dominated by the Continue edge of %s(arguments)?, every Ok path of which passed expect_operator_argument_amount(len, %d) with %d > index %d (lemma L-arity)' % (hp.split('::')[-1], n, n, k)
     for b, t in fn.calls_to('error::expect_operator_argument_amount'):
         n = const_of(fn, t['args'][1])
         if n is None or not isinstance(n, int) or n <= k:
@@ -320,7 +384,7 @@ def G_arity(ctx, prog, lem, site):
         container, k = bs
         if not is_shared_param(fn, strip_trailing_deref(container)):
             return None
-        return _arity_guard(fn, lem, container, k, site['block'])
+        return _arity_guard(fn, lem, container, k, site['block'], prog)
     # arguments.get(k).unwrap()
     t = site['term']
     if t['k'] == 'call' and callee_matches(t, ['option::Option::<T>::unwrap']):
@@ -337,7 +401,7 @@ def G_arity(ctx, prog, lem, site):
         k = const_of(fn, g['args'][1])
         if container is None or k is None or not is_shared_param(fn, strip_trailing_deref(container)):
             return None
-        return _arity_guard(fn, lem, container, k, site['block'])
+        return _arity_guard(fn, lem, container, k, site['block'], prog)
     return None
 
 
@@ -565,7 +629,62 @@ def G_discr(ctx, prog, lem, site):
     d = DSP(fn, place, [v['idx'] for v in adt['variants']])
     if not d.feasible(site['block']):
         return 'block is infeasible: the outer match arm admits only variants that the inner match on the same immutable place lists (discriminant-set propagation)'
+    # interprocedural form: a crate-private helper whose diverging arm is reached only for the variant set `bad`; every use of
+    # the helper is a direct call that passes the caller's own immutable enum parameter at a point where discriminant-set
+    # propagation in the caller excludes all of `bad`
+    bad = d.at(site['block'])
+    if not str(fn.j.get('vis') or '').startswith('Restricted') or fn.kind == 'Closure':
+        return None
+    me = short(fn.path)
+    ncalls = 0
+    for g in prog.fns:
+        # any non-call mention of the helper (fn item taken as a value) defeats the argument
+        for blk in g.blocks:
+            for st in blk['stmts']:
+                if st['k'] == 'assign' and _mentions_fn(st['rv'], me):
+                    return None
+        for b, t in g.calls():
+            for a in t['args']:
+                c = op_const(a)
+                if c and c.get('k') == 'fn' and short(c.get('def') or '') == me:
+                    return None
+            if not (t['callee'].get('local') and short(t['callee']['def']) == me):
+                continue
+            if blkof(g, b)['cleanup']:
+                continue
+            ncalls += 1
+            recv = arg_place(g, t, 0)
+            if recv is None:
+                return None
+            recv = resolve_place(g, recv)
+            if not (recv['l'] == 1 and strip_trailing_deref(recv)['p'] == [] and g.arg_count >= 1 and g.locals[1]['ty'].lstrip('&') == ty.lstrip('&') and g.locals[1]['ty'].startswith('&') and not g.locals[1]['ty'].startswith('&mut') and not g.defs().get(1)):
+                return None
+            dg = DSP(g, dict(l=1, p=['deref']), [v['idx'] for v in adt['variants']])
+            if dg.at(b) & bad:
+                return None
+    if ncalls:
+        names = sorted(v['name'] for v in adt['variants'] if v['idx'] in bad)
+        return 'diverging arm of a crate-private helper is reached only for variants %s; each of its %d call sites passes the caller\'s own immutable `self` where discriminant-set propagation excludes all of them' % (names[:4] + (['...'] if len(names) > 4 else []), ncalls)
     return None
+
+
+def blkof(fn, b):
+    return fn.blocks[b]
+
+
+def _mentions_fn(rv, me):
+    """an rvalue that uses the fn item `me` as a value (reification, storing in an aggregate, ...)"""
+    ops = []
+    for k in ('op', 'a', 'b'):
+        if isinstance(rv.get(k), dict):
+            ops.append(rv[k])
+    for o in rv.get('ops') or []:
+        ops.append(o)
+    for o in ops:
+        c = op_const(o)
+        if c and c.get('k') == 'fn' and short(c.get('def') or '') == me:
+            return True
+    return False
 
 
 def G_lensum(ctx, prog, lem, site):
